@@ -63,6 +63,12 @@ type frame struct {
 	panic            interface{}
 	phitemps         []value // temporaries for parallel phi assignment
 	pos              token.Pos
+	curPos           token.Pos // position of the instruction being executed
+}
+
+var lastPanic struct {
+	payload interface{}
+	where   string
 }
 
 type poison struct{ why string }
@@ -689,6 +695,11 @@ func runFrame(fr *frame) {
 		}
 		fr.panicking = true
 		fr.panic = r
+		if lastPanic.payload != r {
+			// innermost frame that sees this panic: remember where it happened
+			lastPanic.payload = r
+			lastPanic.where = fr.fn.String() + " (" + loc(fr.fn.Prog.Fset, fr.curPos) + ")"
+		}
 		if fr.i.trace {
 			fmt.Fprintf(os.Stderr, "Panicking in %s: %T %v.\n", fr.fn, fr.panic, describePanic(fr.panic))
 		}
@@ -712,6 +723,9 @@ func runFrame(fr *frame) {
 				} else {
 					fmt.Fprintln(os.Stderr, "\t", instr)
 				}
+			}
+			if p := instr.Pos(); p != token.NoPos {
+				fr.curPos = p
 			}
 			if visitInstr(fr, instr) == kReturn {
 				return
